@@ -5,26 +5,12 @@ package c01
 
 import (
 	"fmt"
-	"io"
 	"testing"
 
-	"github.com/EliCDavis/polyform/formats/gltf"
-	"github.com/EliCDavis/polyform/formats/obj"
-	"github.com/EliCDavis/polyform/formats/ply"
-	"github.com/EliCDavis/polyform/formats/stl"
-	"github.com/EliCDavis/polyform/math/geometry"
-	"github.com/EliCDavis/polyform/math/quaternion"
-	"github.com/EliCDavis/polyform/math/trs"
 	"github.com/EliCDavis/polyform/modeling"
-	"github.com/EliCDavis/polyform/modeling/meshops"
-	"github.com/EliCDavis/polyform/modeling/primitives"
-	"github.com/EliCDavis/polyform/modeling/repeat"
-	"github.com/EliCDavis/vector/vector2"
-	"github.com/EliCDavis/vector/vector3"
-	"github.com/EliCDavis/vector/vector4"
 	"pgregory.net/rapid"
 
-	"verifharness/internal/gen"
+	"verifharness/internal/mops"
 	"verifharness/internal/oracle"
 	"verifharness/internal/vh"
 )
@@ -45,252 +31,13 @@ func TestMain(m *testing.M) {
 	})
 }
 
-type Op struct {
-	K string        // operation kind
-	A int           // first pool pick (mod pool size)
-	B int           // second pool pick / eviction slot
-	P []float64     `json:",omitempty"` // numeric parameters
-	M *gen.MeshDesc `json:",omitempty"` // fresh mesh
-	X []int         `json:",omitempty"` // integer parameters (indices)
-}
+type Op = mops.Op
 
 type Case struct{ Ops []Op }
 
-var opKinds = []string{
-	"fresh", "fresh", "prim",
-	"append", "append", "append", "translate", "scale", "rotate", "applytrs",
-	"set1", "set2", "set3", "set4", "setdata3", "modify1", "modify2", "modify3", "modify3par", "modify1par", "modify2par",
-	"copy3", "copy1", "setidx", "setmat", "setmats", "topc", "weld",
-	"unweld", "unref", "nullfaces", "flip", "smooth", "smoothweld", "flat", "laplacian", "laplacianaxis",
-	"scaleattr", "scalealongnormal", "translateattr", "rotateattr", "center", "normalize",
-	"filter1", "filter3", "crop", "split", "repeat", "slice", "vertexcolor",
-	"export-ply", "export-obj", "export-gltf", "export-stl", "scan",
-}
-
-func genOp(t *rapid.T) Op {
-	k := rapid.SampledFrom(opKinds).Draw(t, "op")
-	op := Op{K: k, A: rapid.IntRange(0, 7).Draw(t, "a"), B: rapid.IntRange(0, 7).Draw(t, "b")}
-	switch k {
-	case "fresh":
-		d := gen.Mesh(t, gen.MeshOpts{MaxN: 6, MaxPrims: 4, NeedPos: rapid.IntRange(0, 3).Draw(t, "needpos") > 0, Materials: true, DupPos: true,
-			Attrs: []gen.AttrSpec{{Name: modeling.PositionAttribute, Arity: 3}, {Name: modeling.NormalAttribute, Arity: 3}, {Name: modeling.TexCoordAttribute, Arity: 2},
-				{Name: modeling.ColorAttribute, Arity: 3}, {Name: "w", Arity: 1}, {Name: modeling.RotationAttribute, Arity: 4}}}, "m")
-		op.M = &d
-	case "prim":
-		op.X = []int{rapid.IntRange(0, 6).Draw(t, "prim"), rapid.IntRange(2, 5).Draw(t, "r"), rapid.IntRange(3, 6).Draw(t, "c")}
-	case "setidx":
-		op.X = rapid.SliceOfN(rapid.IntRange(0, 5), 0, 9).Draw(t, "ix")
-	case "setmats":
-		m := rapid.IntRange(0, 3).Draw(t, "nmats")
-		for j := 0; j < m; j++ {
-			op.X = append(op.X, rapid.IntRange(0, 4).Draw(t, "cnt"), rapid.IntRange(-1, 3).Draw(t, "mat"))
-		}
-	default:
-		for j := 0; j < 4; j++ {
-			op.P = append(op.P, float64(rapid.IntRange(-16, 16).Draw(t, "p"))/4)
-		}
-	}
-	return op
-}
-
 func genCase(t *rapid.T) Case {
 	min := rapid.IntRange(3, 30).Draw(t, "minSteps")
-	return Case{Ops: rapid.SliceOfN(rapid.Custom(genOp), min, 40).Draw(t, "ops")}
-}
-
-func p(op Op, i int) float64 {
-	if i < len(op.P) {
-		return op.P[i]
-	}
-	return 0
-}
-
-func prim(op Op) modeling.Mesh {
-	x := append(append([]int{}, op.X...), 0, 2, 3)
-	r, c := x[1], x[2]
-	if r < 2 {
-		r = 2
-	}
-	if c < 3 {
-		c = 3
-	}
-	switch x[0] {
-	case 0:
-		return primitives.Cube{Width: 1, Height: 2, Depth: 3}.Welded() // shares a package-level index slice
-	case 1:
-		return primitives.Cube{Width: 1, Height: 2, Depth: 3, UVs: primitives.DefaultCubeUVs()}.UnweldedQuads()
-	case 2:
-		return primitives.Quad{Width: 1, Depth: 2}.ToMesh()
-	case 3:
-		return primitives.UVSphere(1, r, c)
-	case 4:
-		return primitives.Cylinder{Sides: c, Height: 1, Radius: 1}.ToMesh()
-	case 5:
-		return primitives.Circle{Sides: c, Radius: 1}.ToMesh()
-	default:
-		return primitives.UnitCube()
-	}
-}
-
-// apply executes one operation; results are returned (possibly several for split).
-func apply(op Op, a, b modeling.Mesh) []modeling.Mesh {
-	n := a.AttributeLength()
-	v := vector3.New(p(op, 0), p(op, 1), p(op, 2))
-	q := quaternion.FromTheta(p(op, 3), vector3.New(p(op, 0), p(op, 1), 1.5))
-	one := func(m modeling.Mesh) []modeling.Mesh { return []modeling.Mesh{m} }
-	switch op.K {
-	case "fresh":
-		return one(op.M.Build())
-	case "prim":
-		return one(prim(op))
-	case "append":
-		return one(a.Append(b))
-	case "translate":
-		return one(a.Translate(v))
-	case "scale":
-		return one(a.Scale(v))
-	case "rotate":
-		return one(a.Rotate(q))
-	case "applytrs":
-		return one(a.ApplyTRS(trs.New(v, q, vector3.New(2., 1, 0.5))))
-	case "set1":
-		d := make([]float64, n)
-		for i := range d {
-			d[i] = p(op, 0) + float64(i)
-		}
-		return one(a.SetFloat1Attribute("w", d))
-	case "set2":
-		d := make([]vector2.Float64, n)
-		for i := range d {
-			d[i] = vector2.New(p(op, 0), float64(i))
-		}
-		return one(a.SetFloat2Attribute(modeling.TexCoordAttribute, d))
-	case "set3":
-		d := make([]vector3.Float64, n)
-		for i := range d {
-			d[i] = v.Scale(float64(i))
-		}
-		name := []string{modeling.PositionAttribute, modeling.NormalAttribute, "extra"}[int(4+p(op, 3)*4)%3]
-		return one(a.SetFloat3Attribute(name, d))
-	case "set4":
-		d := make([]vector4.Float64, n)
-		for i := range d {
-			d[i] = vector4.New(p(op, 0), p(op, 1), p(op, 2), float64(i))
-		}
-		return one(a.SetFloat4Attribute(modeling.RotationAttribute, d))
-	case "setdata3":
-		d := make([]vector3.Float64, n)
-		for i := range d {
-			d[i] = v.Scale(float64(i + 1))
-		}
-		return one(a.SetFloat3Data(map[string][]vector3.Float64{modeling.PositionAttribute: d}))
-	case "modify1":
-		return one(a.ModifyFloat1Attribute("w", func(i int, x float64) float64 { return x + p(op, 0) }))
-	case "modify1par":
-		return one(a.ModifyFloat1AttributeParallelWithPoolSize("w", 3, func(i int, x float64) float64 { return x + p(op, 0) }))
-	case "modify2":
-		return one(a.ModifyFloat2Attribute(modeling.TexCoordAttribute, func(i int, x vector2.Float64) vector2.Float64 { return x.Scale(2) }))
-	case "modify2par":
-		return one(a.ModifyFloat2AttributeParallelWithPoolSize(modeling.TexCoordAttribute, 2, func(i int, x vector2.Float64) vector2.Float64 { return x.Scale(2) }))
-	case "modify3":
-		return one(a.ModifyFloat3Attribute(modeling.PositionAttribute, func(i int, x vector3.Float64) vector3.Float64 { return x.Add(v) }))
-	case "modify3par":
-		return one(a.ModifyFloat3AttributeParallelWithPoolSize(modeling.PositionAttribute, 3, func(i int, x vector3.Float64) vector3.Float64 { return x.Add(v) }))
-	case "copy3":
-		return one(a.CopyFloat3Attribute(b, modeling.PositionAttribute))
-	case "copy1":
-		return one(a.CopyFloat1Attribute(b, "w"))
-	case "setidx":
-		idx := []int{}
-		for _, x := range op.X {
-			if n > 0 {
-				idx = append(idx, x%n)
-			}
-		}
-		if a.Topology() == modeling.TriangleTopology {
-			idx = idx[:len(idx)/3*3]
-		}
-		return one(a.SetIndices(idx))
-	case "setmat":
-		return one(a.SetMaterial(*gen.MaterialPool[op.B%4]))
-	case "setmats":
-		var ms []modeling.MeshMaterial
-		for i := 0; i+1 < len(op.X); i += 2 {
-			mm := modeling.MeshMaterial{PrimitiveCount: op.X[i]}
-			if op.X[i+1] >= 0 {
-				mm.Material = gen.MaterialPool[op.X[i+1]%4]
-			}
-			ms = append(ms, mm)
-		}
-		return one(a.SetMaterials(ms))
-	case "topc":
-		return one(a.ToPointCloud())
-	case "weld":
-		return one(a.WeldByFloat3Attribute(modeling.PositionAttribute, int(2+p(op, 0))%4))
-	case "unweld":
-		return one(meshops.Unweld(a))
-	case "unref":
-		return one(meshops.RemovedUnreferencedVertices(a))
-	case "nullfaces":
-		return one(meshops.RemoveNullFaces3D(a, modeling.PositionAttribute, 0.1))
-	case "flip":
-		return one(meshops.FlipTriangleWinding(a))
-	case "smooth":
-		return one(meshops.SmoothNormals(a))
-	case "smoothweld":
-		return one(meshops.SmoothNormalsImplicitWeld(a, 0.01))
-	case "flat":
-		return one(meshops.FlatNormals(a))
-	case "laplacian":
-		return one(meshops.LaplacianSmooth(a, modeling.PositionAttribute, 2, 0.5))
-	case "laplacianaxis":
-		return one(meshops.LaplacianSmoothAlongAxis(a, modeling.PositionAttribute, 1, 0.5, vector3.Up[float64]()))
-	case "scaleattr":
-		return one(meshops.ScaleAttribute3D(a, modeling.PositionAttribute, vector3.New(1., 0, 0), v))
-	case "scalealongnormal":
-		return one(meshops.ScaleAttributeAlongNormal(a, modeling.PositionAttribute, modeling.NormalAttribute, p(op, 0)))
-	case "translateattr":
-		return one(meshops.TranslateAttribute3D(a, modeling.NormalAttribute, v))
-	case "rotateattr":
-		return one(meshops.RotateAttribute3D(a, modeling.NormalAttribute, q))
-	case "center":
-		return one(meshops.CenterFloat3Attribute(a, modeling.PositionAttribute))
-	case "normalize":
-		return one(meshops.NormalizeAttribute3D(a, modeling.PositionAttribute))
-	case "filter1":
-		return one(meshops.FilterFloat1(a, "w", func(x float64) bool { return x >= p(op, 0) }))
-	case "filter3":
-		return one(meshops.FilterFloat3(a, modeling.PositionAttribute, func(x vector3.Float64) bool { return x.X() < p(op, 0) }))
-	case "crop":
-		return one(meshops.CropFloat3Attribute(a, modeling.PositionAttribute, geometry.NewAABB(v, vector3.New(6., 6, 6))))
-	case "split":
-		return meshops.SplitOnUniqueMaterials(a)
-	case "repeat":
-		return one(repeat.Mesh(a, []trs.TRS{trs.Position(v), trs.New(v.Scale(2), q, vector3.One[float64]())}))
-	case "slice":
-		x, y := meshops.SliceByPlaneWithAttribute(a, geometry.NewPlaneFromPoints(v, v.Add(vector3.Right[float64]()), v.Add(vector3.Forward[float64]())), modeling.PositionAttribute)
-		return []modeling.Mesh{x, y}
-	case "vertexcolor":
-		return one(meshops.VertexColorSpace(a, modeling.ColorAttribute, meshops.VertexColorSpaceSRGBToLinear))
-	case "export-ply":
-		ply.Write(io.Discard, a, ply.ASCII)
-		ply.Write(io.Discard, a, ply.BinaryLittleEndian)
-		ply.Write(io.Discard, a, ply.BinaryBigEndian)
-	case "export-obj":
-		obj.WriteMesh(a, "", io.Discard)
-	case "export-gltf":
-		sc := gltf.PolyformScene{Models: []gltf.PolyformModel{{Name: "x", Mesh: &a}, {Name: "y", Mesh: &b}}}
-		gltf.WriteBinary(sc, io.Discard)
-		gltf.WriteText(sc, io.Discard)
-	case "export-stl":
-		stl.WriteMesh(io.Discard, a)
-	case "scan":
-		a.ScanFloat3Attribute(modeling.PositionAttribute, func(i int, v vector3.Float64) {})
-		a.ScanPrimitives(func(i int, p modeling.Primitive) {})
-		a.VertexNeighborTable()
-		a.OctTree()
-	}
-	return nil
+	return Case{Ops: rapid.SliceOfN(rapid.Custom(mops.Gen), min, 40).Draw(t, "ops")}
 }
 
 type live struct {
@@ -314,7 +61,7 @@ func runCase(c Case, o *vh.Obs) *vh.Failure {
 			a, b = pool[op.A%len(pool)], pool[op.B%len(pool)]
 		}
 		var res []modeling.Mesh
-		kind, _ := oracle.Try(func() { res = apply(op, a.m, b.m) })
+		kind, _ := oracle.Try(func() { res = mops.Apply(op, a.m, b.m) })
 		if kind != "" {
 			o.Count("op-panicked", 1)
 			res = nil
